@@ -1,5 +1,6 @@
 (* C15 / C16 / C17: replay panel scenarios on the extracted model Model/Panel.v.
-   input line : <id> <prefix 0|1><patched 0|1> <now> <users> <step> <step> ...
+   input line : <id> <prefix 0|1><patched 0|1> <now> <users> <notices> <step> <step> ...
+     notices = comma separated <k>:<bytes> (wire size of the notice frame Session.Close sent for session k) | -
      users = comma separated  <uid>:<cap>:<up>:<down>:<expiry>  |  b<uid> (bypass UID)  |  - (none)
      step  = D<uid>.<sid>[h]   dispatch a connection (h: stop at schedule point dispatch.gotUser)
            | C<k>              CloseSession of session k (numbered in creation order) on its record
@@ -15,7 +16,7 @@
 let z_of_int i = if i = 0 then Z0 else if i > 0 then Zpos (pos_of_int i) else Zneg (pos_of_int (-i))
 let int_of_z = function Z0 -> 0 | Zpos p -> int_of_pos p | Zneg p -> - (int_of_pos p)
 
-type tinfo = { kind : char; mutable armed : bool; mutable result : string }
+type tinfo = { kind : char; mutable armed : bool; mutable result : string; mtid : int (* thread id in the model, -1: none *) }
 
 let parse_users (u : string) =
   let recs = ref [] and byp = ref [] and order = ref [] in
@@ -34,10 +35,14 @@ let parse_users (u : string) =
         | _ -> failwith ("bad user " ^ e) end) (split_on ',' u);
   (!recs, !byp, List.rev !order)
 
-let run_scenario (cfgs : string) (now0 : int) (users : string) (steps : string list) : string list =
+let run_scenario (cfgs : string) (now0 : int) (users : string) (notices : string) (steps : string list) : string list =
   let (recs0, byp, uids) = parse_users users in
+  let nts = if notices = "-" then [] else
+      List.filter_map (fun e -> match split_on ':' e with
+        | [k; b] -> Some (int_of_string k, int_of_string b) | _ -> None) (split_on ',' notices) in
   let c = { prefix_order = (cfgs.[0] = '1'); patched = (cfgs.[1] = '1');
-            is_bypass = (fun u -> List.mem (int_of_n u) byp) } in
+            is_bypass = (fun u -> List.mem (int_of_n u) byp);
+            close_tx = (fun k -> z_of_int (try List.assoc (int_of_nat k) nts with Not_found -> 0)) } in
   let d0 = fun u -> (try Some (List.assoc (int_of_n u) recs0) with Not_found -> None) in
   let s = ref (init d0 (z_of_int now0)) in
   let threads : tinfo list ref = ref [] in     (* reversed *)
@@ -46,10 +51,11 @@ let run_scenario (cfgs : string) (now0 : int) (users : string) (steps : string l
   let uids = ref uids in
   let note_uid u = if not (List.mem u !uids) then uids := !uids @ [u] in
   (* advance one thread as far as it goes; true if it moved *)
-  let advance t =
-    let ti = tinfo t in
+  let advance t0 =
+    let ti = tinfo t0 in
+    let t = ti.mtid in
     let moved = ref false in
-    let continue = ref true in
+    let continue = ref (t >= 0) in
     while !continue do
       let p = !s.thr (nat_of_int t) in
       if is_done p then continue := false
@@ -78,8 +84,8 @@ let run_scenario (cfgs : string) (now0 : int) (users : string) (steps : string l
     done in
   let spawn kind armed o =
     match step c !s (Spawn o) with
-    | Some s' -> s := s'; threads := { kind; armed; result = "" } :: !threads
-    | None -> threads := { kind; armed = false; result = "bad" } :: !threads  (* invalid op: a finished dummy *)
+    | Some s' -> let m = int_of_nat !s.nthr in s := s'; threads := { kind; armed; result = ""; mtid = m } :: !threads
+    | None -> threads := { kind; armed = false; result = "bad"; mtid = -1 } :: !threads  (* invalid op: a finished dummy *)
   in
   let env l = match step c !s l with Some s' -> s := s' | None -> () in
   let reported = Hashtbl.create 16 in
@@ -90,7 +96,7 @@ let run_scenario (cfgs : string) (now0 : int) (users : string) (steps : string l
     let first = ref true in
     for t = 0 to nthreads () - 1 do
       let ti = tinfo t in
-      let p = if t < int_of_nat !s.nthr then !s.thr (nat_of_int t) else Done in
+      let p = if ti.mtid >= 0 then !s.thr (nat_of_int ti.mtid) else Done in
       let st =
         if ti.result = "bad" then (if Hashtbl.mem reported t then "" else (Hashtbl.add reported t (); "X"))
         else if is_done p then (if Hashtbl.mem reported t then "" else (Hashtbl.add reported t (); "F" ^ ti.result))
@@ -178,9 +184,9 @@ let run_scenario (cfgs : string) (now0 : int) (users : string) (steps : string l
 
 let () = iter_lines (fun line ->
   match split_ws line with
-  | id :: cfgs :: nw :: users :: steps ->
+  | id :: cfgs :: nw :: users :: notices :: steps ->
     (try
-       let os = run_scenario cfgs (int_of_string nw) users steps in
+       let os = run_scenario cfgs (int_of_string nw) users notices steps in
        print_string id; List.iter (fun o -> print_char ' '; print_string o) os; print_newline ()
      with e -> Printf.printf "%s ERROR %s\n" id (Printexc.to_string e))
   | _ -> ())
